@@ -101,6 +101,10 @@ def run(chk, prog):
     for p in fn["params"]:
         if p["t"].replace("const ", "").strip() == "double":
             env.vals[("l", p["id"])] = sp.Symbol(p["n"], positive=True)
+    # ---- P5: the electron density given to the metal balance is never exactly zero (interprocedural constants) ---------
+    from . import c06_ne
+    n5 = c06_ne.rule_P5(chk, prog.library())
+    chk.floor("P5", n5, 1)
     # ---- P4: denominators with a charge-transfer term stay strictly positive (sign analysis, lambdas followed) ---------
     from . import c06_denominators
     n4 = c06_denominators.rule_P4(chk, fn)
